@@ -205,3 +205,291 @@ Definition http_callback (cx : ctx) (srv k : Z) (args : list Z) (w : net) : net 
   | 4, _ => http_process cx srv w                  (* post(on_read(error_code(), 0)) *)
   | _, _ => (w, [])
   end.
+
+(* ================================================================== *)
+(* sim::http_proxy (src/http_proxy.cpp)                                 *)
+(* ================================================================== *)
+(* application numbers: http servers 0..49, proxies 50..99 *)
+Definition px_base (app : Z) : Z := 2001000 + 8 * (app - 50).
+Definition px_acc (app : Z) : Z := px_base app.
+Definition px_client (app : Z) : Z := px_base app + 1.
+Definition px_server (app : Z) : Z := px_base app + 2.
+Definition px_rslv (app : Z) : Z := px_base app + 3.
+(* callbacks: 0 on_accept, 1 on_read_request, 2 on_domain_lookup, 3 on_connected, 4 on_server_write,
+   5 on_server_receive, 6 on_server_forward, 7 close_connection (after error()) *)
+
+Definition get_proxy (w : net) (app : Z) : proxy := mget (mkProxy 0 false [] [] false) (w_proxy w) app.
+Definition set_proxy (w : net) (app : Z) (p : proxy) : net := w <| w_proxy := mset (w_proxy w) app p |>.
+
+(* ---- the string functions forward_request uses ---- *)
+Fixpoint find_from (c : Z) (s : list Z) (i : nat) : option nat :=      (* s.find_first_of(c, i) *)
+  match i, s with
+  | O, _ => find_first c s
+  | S i', _ :: r => match find_from c r i' with Some k => Some (S k) | None => None end
+  | S _, [] => None
+  end.
+Fixpoint find_last (c : Z) (s : list Z) : option nat :=                 (* s.find_last_of(c) *)
+  match s with
+  | [] => None
+  | x :: r => match find_last c r with
+              | Some k => Some (S k)
+              | None => if x =? c then Some O else None
+              end
+  end.
+(* atoi: blanks, an optional sign, digits *)
+Fixpoint atoi_digits (s : list Z) (acc : Z) : Z :=
+  match s with
+  | c :: r => if (48 <=? c) && (c <=? 57) then atoi_digits r (acc * 10 + (c - 48)) else acc
+  | [] => acc
+  end.
+Definition atoi (s : list Z) : Z :=
+  match skip_space (cstr s) with
+  | 45 :: r => - atoi_digits r 0
+  | 43 :: r => atoi_digits r 0
+  | r => atoi_digits r 0
+  end.
+
+Definition S_HTTP : list Z := B "http://".
+Definition S_HTTP11 : list Z := B " HTTP/1.1".
+Definition S_HOST : list Z := B "host".
+
+(* asio::ip::make_address, for the forms a host component can take here: a strict
+   dotted quad (inet_pton: decimal, no leading zeros, 0..255) or "::" followed by up
+   to four hex digits.  Anything else is a name for the resolver. *)
+Fixpoint split_on (c : Z) (s : list Z) (cur : list Z) : list (list Z) :=
+  match s with
+  | [] => [rev cur]
+  | x :: r => if x =? c then rev cur :: split_on c r [] else split_on c r (x :: cur)
+  end.
+Definition octet (s : list Z) : option Z :=
+  match s with
+  | [] => None
+  | [a] => if (48 <=? a) && (a <=? 57) then Some (a - 48) else None
+  | a :: r =>
+      if (49 <=? a) && (a <=? 57) && forallb (fun c => (48 <=? c) && (c <=? 57)) r && (Nat.leb (List.length r) 2)
+      then let v := atoi_digits s 0 in if v <=? 255 then Some v else None
+      else None
+  end.
+Definition hexval (c : Z) : option Z :=
+  if (48 <=? c) && (c <=? 57) then Some (c - 48)
+  else if (97 <=? c) && (c <=? 102) then Some (c - 87)
+  else if (65 <=? c) && (c <=? 70) then Some (c - 55) else None.
+Fixpoint hexnum (s : list Z) (acc : Z) : option Z :=
+  match s with
+  | [] => Some acc
+  | c :: r => match hexval c with Some v => hexnum r (acc * 16 + v) | None => None end
+  end.
+Definition make_address (s : list Z) : option addr :=
+  match s with
+  | 58 :: 58 :: r =>
+      if Nat.leb (List.length r) 4 then
+        match hexnum r 0 with Some v => Some {| a_v6 := true; a_val := v |} | None => None end
+      else None
+  | _ =>
+      match map octet (split_on 46 s []) with
+      | [Some a; Some b; Some c; Some d] =>
+          if existsb (Z.eqb 0) s then None
+          else Some {| a_v6 := false; a_val := ((a * 256 + b) * 256 + c) * 256 + d |}
+      | _ => None
+      end
+  end.
+
+(* "host<digits>" is host number <digits> of the scenario; every other name is unknown *)
+Definition host_id (s : list Z) : Z :=
+  match s with
+  | 104 :: 111 :: 115 :: 116 :: (d :: _) as r =>
+      if forallb (fun c => (48 <=? c) && (c <=? 57)) r && Nat.leb (List.length r) 9 then atoi_digits r 0 else -1
+  | _ => -1
+  end.
+
+(* forward_request, the pure part: the request as sent to the origin, the host and
+   the port; None = it threw ("invalid request") *)
+Definition rewrite_request (req : request) : option (list Z * list Z * Z) :=
+  let url := r_req req in
+  if negb (list_eqb (firstn 7 url) S_HTTP) then None
+  else
+    let path_start := find_from 47 url 7 in
+    let head := match path_start with Some i => firstn i url | None => url end in
+    let path := match path_start with Some i => skipn i url | None => [47] end in
+    let host_end := find_last 58 head in
+    let has_port := match host_end with Some e => Nat.ltb 7 e | None => false end in
+    let host := match host_end with
+                | Some e => if Nat.ltb 7 e then firstn (e - 7) (skipn 7 url)
+                            else skipn 7 head
+                | None => skipn 7 head
+                end in
+    let host := match host with
+                | 91 :: _ => if (Nat.leb 2 (List.length host)) && (last host 0 =? 93)
+                             then removelast (tl host) else host
+                | _ => host
+                end in
+    let port := match host_end with
+                | Some e => if Nat.ltb 7 e then atoi (skipn (S e) url) else 80
+                | None => 80
+                end in
+    let found_host := existsb (fun h => list_eqb (fst h) S_HOST) (r_headers req) in
+    let hdrs := flat_map (fun h => fst h ++ [58; 32] ++ snd h ++ [13; 10]) (r_headers req) in
+    let out := r_method req ++ [32] ++ path ++ S_HTTP11 ++ [13; 10] ++ hdrs
+               ++ (if found_host then [] else S_HOST ++ [58; 32] ++ host ++ [13; 10]) ++ [13; 10] in
+    Some (out, host, port).
+
+(* ---- the socket-level program ---- *)
+Definition proxy_accept (cx : ctx) (app : Z) (w : net) : net * list kc :=
+  let a := px_acc app in let peer := px_client app in
+  let '(w, c0) := if t_open (get_tcp w peer) then tcp_close cx peer w else (w, []) in
+  let (w, c1) := acc_abort_handlers a false w in
+  let t := get_tcp w a in
+  let w := set_tcp w a (t <| a_h := Some (hid_app app 0) |> <| a_into := Some peer |> <| a_want_ep := true |>) in
+  let (w, c2) := acc_check_queue cx a w in
+  (w, c0 ++ c1 ++ c2).
+
+Definition proxy_close_connection (cx : ctx) (app : Z) (w : net) : net * list kc :=
+  let p := get_proxy w app in
+  let w := set_proxy w app (p <| px_cin := [] |> <| px_sout := [] |>) in
+  let (w, c0) := tcp_close cx (px_client app) w in
+  let (w, c1) := tcp_close cx (px_server app) w in
+  if px_close p then (w, c0 ++ c1)
+  else let (w, c2) := proxy_accept cx app w in (w, c0 ++ c1 ++ c2).
+
+Definition proxy_read_client (app : Z) (w : net) : net * list kc :=
+  let p := get_proxy w app in
+  let (w, c0) := tcp_abort_recv (px_client app) w in
+  let (w, c1) := tcp_async_read_impl (px_client app) [65536 - Z.of_nat (List.length (px_cin p))] (hid_app app 1) w in
+  (w, c0 ++ c1).
+
+Definition proxy_read_server (app : Z) (w : net) : net * list kc :=
+  let (w, c0) := tcp_abort_recv (px_server app) w in
+  let (w, c1) := tcp_async_read_impl (px_server app) [65536] (hid_app app 5) w in
+  (w, c0 ++ c1).
+
+Definition proxy_write_server (cx : ctx) (app : Z) (w : net) : net * list kc :=
+  let p := get_proxy w app in
+  if px_writing p then (w, [])
+  else
+    let w := set_proxy w app (p <| px_writing := true |>) in
+    let (w, c0) := tcp_abort_send (px_server app) w in
+    let (w, c1) := tcp_async_write_impl cx (px_server app) [px_sout p] (hid_app app 4) w in
+    (w, c0 ++ c1).
+
+(* error(): answer and close when the answer is written *)
+Definition proxy_error (cx : ctx) (app : Z) (code : Z) (msg : list Z) (w : net) : net * list kc :=
+  start_write_all cx (px_client app) (send_response code msg 0 []) 65536 (hid_app app 7) w.
+
+Definition proxy_open_forward (cx : ctx) (app : Z) (target : endpoint) (w : net) : net * list kc :=
+  let s := px_server app in
+  let '(w, c0) := if t_open (get_tcp w s) then tcp_close cx s w else (w, []) in
+  let (w, c1) := tcp_open cx s (negb (a_v6 (e_addr target))) w in
+  let (w, c2) := tcp_async_connect cx s target (hid_app app 3) w in
+  (w, c0 ++ c1 ++ c2).
+
+Definition S_503A : list Z := B "Resource Temporarily Unavailable".
+Definition S_503B : list Z := B "Service Temporarily Unavailable".
+
+(* forward_request: (state, calls, false = it threw) *)
+Definition proxy_forward (cx : ctx) (app : Z) (req : request) (w : net) : net * list kc * bool :=
+  match rewrite_request req with
+  | None => (w, [], false)
+  | Some (out, host, port) =>
+      let p := get_proxy w app in
+      if 65536 <? Z.of_nat (List.length (px_sout p)) + Z.of_nat (List.length out) then (w, [], false)
+      else
+        let w := set_proxy w app (p <| px_sout := px_sout p ++ out |>) in
+        if negb (t_open (get_tcp w (px_server app))) then
+          match make_address host with
+          | Some a => let (w, c) := proxy_open_forward cx app {| e_addr := a; e_port := port mod 65536 |} w in (w, c, true)
+          | None =>
+              let (w, c) := rslv_resolve cx (px_rslv app) (RHost (host_id host)) port (hid_app app 2) w in (w, c, true)
+          end
+        else let (w, c) := proxy_write_server cx app w in (w, c, true)
+  end.
+
+(* the while loop of on_read_request *)
+Fixpoint proxy_requests (fuel : nat) (cx : ctx) (app : Z) (w : net) : net * list kc :=
+  match fuel with
+  | O => (w, [KLog (TAG_FUEL, [16])])
+  | S f =>
+      let p := get_proxy w app in
+      let buf := px_cin p in
+      match find_request_len buf (Z.of_nat (List.length buf)) with
+      | Ok len =>
+          if len <? 0 then proxy_read_client app w
+          else
+            match parse_request buf len with
+            | Ok req =>
+                let '(w, c0, ok) := proxy_forward cx app req w in
+                if ok then
+                  let p := get_proxy w app in
+                  let w := set_proxy w app (p <| px_cin := skipn (Z.to_nat len) (px_cin p) |>) in
+                  let (w, c1) := proxy_requests f cx app w in (w, c0 ++ c1)
+                else let (w, c1) := proxy_close_connection cx app w in (w, c0 ++ c1)
+            | _ => proxy_close_connection cx app w
+            end
+      | _ => proxy_close_connection cx app w
+      end
+  end.
+
+Definition proxy_new (cx : ctx) (app node port : Z) (w : net) : net * list kc :=
+  let a := px_acc app in
+  let w := set_proxy w app (mkProxy node false [] [] false) in
+  let w := set_rslv w (px_rslv app) (mkRslv node []) in
+  let w := set_tcp w a (tcp_fresh node true) in
+  let w := set_tcp w (px_client app) (tcp_fresh node false) in
+  let w := set_tcp w (px_server app) (tcp_fresh node false) in
+  let v4 := match node_ips w node with ip :: _ => negb (a_v6 ip) | [] => true end in
+  let (w, c0) := tcp_open cx a v4 w in
+  let (_, w) := tcp_bind a {| e_addr := if v4 then addr_any4 else addr_any6; e_port := port |} w in
+  let w := set_tcp w a (get_tcp w a <| a_limit := 20 |>) in
+  let (w, c1) := proxy_accept cx app w in
+  (w, c0 ++ c1).
+
+Definition proxy_stop (cx : ctx) (app : Z) (w : net) : net * list kc :=
+  let w := set_proxy w app (get_proxy w app <| px_close := true |>) in
+  acc_close cx (px_acc app) w.
+
+Definition proxy_callback (cx : ctx) (app k : Z) (args : list Z) (w : net) : net * list kc :=
+  let p := get_proxy w app in
+  match k, args with
+  | 0, e :: _ =>
+      if e =? EC_ABORTED then (w, [])
+      else if negb (e =? EC_OK) then proxy_close_connection cx app w
+      else
+        let (w, c0) := tcp_abort_recv (px_client app) w in
+        let (w, c1) := tcp_async_read_impl (px_client app) [65536] (hid_app app 1) w in (w, c0 ++ c1)
+  | 1, e :: _ :: _ :: _ :: data =>
+      if negb (e =? EC_OK) then proxy_close_connection cx app w
+      else
+        let w := set_proxy w app (p <| px_cin := px_cin p ++ data |>) in
+        proxy_requests (S (List.length (px_cin p ++ data))) cx app w
+  | 2, e :: n :: eps =>
+      if negb (e =? EC_OK) || (n =? 0) then proxy_error cx app 503 S_503A w
+      else
+        match eps with
+        | f :: a :: pt :: _ => proxy_open_forward cx app {| e_addr := {| a_v6 := negb (f =? 0); a_val := a |}; e_port := pt |} w
+        | _ => (w, [])
+        end
+  | 3, e :: _ =>
+      if negb (e =? EC_OK) then
+        let (w, c0) := tcp_close cx (px_server app) w in
+        let (w, c1) := proxy_error cx app 503 S_503B w in (w, c0 ++ c1)
+      else
+        let (w, c0) := proxy_write_server cx app w in
+        let (w, c1) := proxy_read_server app w in (w, c0 ++ c1)
+  | 4, e :: n :: _ =>
+      let w := set_proxy w app (p <| px_writing := false |>) in
+      if negb (e =? EC_OK) then proxy_close_connection cx app w
+      else
+        let p := get_proxy w app in
+        let rest := skipn (Z.to_nat n) (px_sout p) in
+        let w := set_proxy w app (p <| px_sout := rest |>) in
+        match rest with [] => (w, []) | _ => proxy_write_server cx app w end
+  | 5, e :: _ :: _ :: _ :: data =>
+      if negb (e =? EC_OK) then proxy_close_connection cx app w
+      else start_write_all cx (px_client app) data 65536 (hid_app app 6) w
+  | 6, e :: _ =>
+      if negb (e =? EC_OK) then proxy_close_connection cx app w else proxy_read_server app w
+  | 7, _ => proxy_close_connection cx app w
+  | _, _ => (w, [])
+  end.
+
+Definition app_callback (cx : ctx) (app k : Z) (args : list Z) (w : net) : net * list kc :=
+  if app <? 50 then http_callback cx app k args w else proxy_callback cx app k args w.
